@@ -9,7 +9,7 @@
    finiteness guards (modelled as stage 19/20 faults) and on C19; running time
    and memory for huge but finite sizes are not decided. *)
 From Coq Require Import List Bool Arith Reals.
-From PM Require Import Base.Num Base.RNum Gen.Extracted Model.Main Proofs.MainP.
+From PM Require Import Base.Num Base.RNum Gen.Extracted Model.Main Proofs.MainP Gen.MainFlow Proofs.MainFlowP.
 Import ListNotations.
 
 (* whatever exceptions the stages raise (any admissible assignment of faults to stages), main ends in the
@@ -33,3 +33,26 @@ Theorem C20_frequency_guard_sufficient :
      0 < @f_w RNum f < 1e150 /\ 0 < @f_w2 RNum f < 1e300)%R.
 Proof. exact frequency_guard_proof. Qed.
 Print Assumptions C20_frequency_guard_sufficient.
+
+(* --- the same statement on the flow REGENERATED from main's syntax tree (Gen/MainFlow.v, py/translate_main.py) ---
+   at every place where main performs an operation that can raise, every kind of exception that operation can
+   raise (prim_raises) is turned into the diagnostic by a try statement around that place *)
+Theorem C20_no_site_escapes :
+  forall s e, In s main_sites -> In e (prim_raises (s_prim s)) -> site_caught s e = true.
+Proof. exact no_site_escapes_proof. Qed.
+Print Assumptions C20_no_site_escapes.
+
+(* hence whichever operation raises first, main does not end in an uncaught exception *)
+Theorem C20_flow_no_uncaught :
+  forall k e, (forall s, nth_error main_sites k = Some s -> In e (prim_raises (s_prim s))) ->
+    forall j e', run_site main_sites k e <> Uncaught j e'.
+Proof. exact flow_no_uncaught_proof. Qed.
+Print Assumptions C20_flow_no_uncaught.
+
+(* the frequency setter is called for every step of a sweep outside any try statement: main checks the first and
+   the last frequency against the guard, and every step lies between them *)
+Theorem C20_sweep_inside_guard :
+  forall (f0 d n k B : R), (0 < f0 < B)%R -> (0 < f0 + (n - 1) * d < B)%R -> (0 <= k <= n - 1)%R ->
+    (0 < f0 + k * d < B)%R.
+Proof. exact sweep_inside_guard_proof. Qed.
+Print Assumptions C20_sweep_inside_guard.
